@@ -188,11 +188,19 @@ def r3_type_args(repo):
             want = "getattr(%s.class_type, 'can_infer_type_args', None) is True" % node
             full = [c for c in calls_in(m.node) if call_name(c) == "get_type_name" and
                     src(c.args[0]) == "%s.class_type" % node]
-            in_true = [c for c in full if any(is_within(c, s) for s in t.body)]
-            in_false = [c for c in full if any(is_within(c, s) for s in t.orelse)]
-            name_only = [n for s in t.body for n in ast.walk(s) if isinstance(n, ast.Attribute) and
-                         src(n) == "%s.class_type.name" % node]
-            ok = src(t.test) == want and not in_true and bool(in_false) and bool(name_only)
+            # by path condition, not by branch position: the full type only where the flag is not True, the bare name
+            # (or diamond) where it is
+            def pol_of(n_):
+                for t_, p_ in flat_guards(n_):
+                    if " ".join(src(t_).split()) == want:
+                        return p_
+                return None
+            in_true = [c for c in full if pol_of(c) is True]
+            in_false = [c for c in full if pol_of(c) is False]
+            name_only = [n for n in ast.walk(t) if isinstance(n, ast.Attribute) and
+                         src(n) == "%s.class_type.name" % node and pol_of(n) is True]
+            ok = want in " ".join(src(t.test).split()) and not in_true and bool(in_false) and bool(name_only) and \
+                all(pol_of(c) is not None for c in full)
             msg = ("type arguments of a constructor call are dropped (name only / diamond) iff can_infer_type_args is True, "
                    "otherwise the full type is printed: test `%s`, full type in else-branch: %s, name only in then-branch: %s"
                    % (src(t.test), bool(in_false), bool(name_only)))
